@@ -197,6 +197,13 @@ class Host:
             eng.trigger(o, [PN[p % self.cfg['n_params']] for p in act['ps']])
         elif a == 'unwatch':
             self.unwatch(act['w'])
+        elif a == 'unwatch_self':
+            # a one-shot callback: it removes its own registration while it runs; every other watcher is still owed its call
+            for reg, h in sorted(self.whandles.items()):
+                if h.wid == w.wid and h.obj == w.obj and reg not in self.removed:
+                    self.removed.add(reg)
+                    self.engine.unwatch(h)
+                    break
 
     # -- watcher management ---------------------------------------------------------------------
     def watch(self, spec):
@@ -686,6 +693,8 @@ class DispatchWorld:
         if cfg.get('event') and what == 'value' and rng.random() < 0.2:
             spec['ps'] = spec['ps'] + ['e']
         top = max(ps)
+        if not simple and rng.random() < 0.12:
+            spec['script'].append({'a': 'unwatch_self'})
         if not simple and rng.random() < cfg['p_script'] and top + 1 < np_:
             n_act = 1 if rng.random() < 0.7 else 2
             for _ in range(n_act):
